@@ -9,8 +9,9 @@ ASSUME = [
 
 
 def mc_cfg(dom, maxargs, maxops, view=True, export=False, prefix="NoPrefix", allownew=True):
-    return ("CONSTANTS D = {%s}  MaxArgs = %d  MaxCnt = 2  MaxOps = %d  Prefix <- %s  AllowNew = %s\nINIT Init\nNEXT Next\n%s%s\nCHECK_DEADLOCK FALSE\n" % (
-        ", ".join(str(i) for i in range(1, dom + 1)), maxargs, maxops, prefix, str(allownew).upper(),
+    # (the domain is -1 .. dom-2: ints, not naturals)
+    return ("CONSTANTS D <- %s  MaxArgs = %d  MaxCnt = 2  MaxOps = %d  Prefix <- %s  AllowNew = %s\nINIT Init\nNEXT Next\n%s%s\nCHECK_DEADLOCK FALSE\n" % (
+        "DomOf%d" % dom, maxargs, maxops, prefix, str(allownew).upper(),
         "VIEW View\nINVARIANTS TypeOK EachOrdered Algebra\nPROPERTY Persistent" if not export else "INVARIANTS Export",
         ""))
 
